@@ -326,7 +326,21 @@ func runC11(c *Ctx) {
 					ta, ok := ex.Tuple.(*ssa.TypeAssert)
 					return ok && isBody(ta.X)
 				}
-				isRBuf := vFieldLoad(clientReqT, "buf", nil)
+				isRBufFld := vFieldLoad(clientReqT, "buf", nil)
+				// (or the local the buffer was made into before being put into the field: the one value buildHTTP ever
+				// stores there)
+				isRBuf := func(v ssa.Value) bool {
+					if isRBufFld(v) {
+						return true
+					}
+					sts := fieldStores(f, clientReqT, "buf")
+					for _, s2 := range sts {
+						if s2.Val != v {
+							return false
+						}
+					}
+					return len(sts) > 0
+				}
 				// body == io.Reader(r.buf): interface equality holds only for the same dynamic type and pointer
 				isRBufI := func(v ssa.Value) bool {
 					mi, ok := v.(*ssa.MakeInterface)
@@ -542,8 +556,8 @@ func runC11(c *Ctx) {
 		}
 		for i, fv := range g.FreeVars {
 			b := theGo(f).Call.Value.(*ssa.MakeClosure).Bindings[i]
-			switch fv.Name() {
-			case "mp":
+			switch {
+			case typeStr(fv.Type()) == "**mime/multipart.Writer":
 				okk := false
 				if al, ok := b.(*ssa.Alloc); ok {
 					for _, s2 := range storesToCell(al) {
@@ -553,11 +567,20 @@ func runC11(c *Ctx) {
 				c.obI("R11.3", theGo(f), "goroutine-uses-the-writer", okk, "the goroutine writes through that writer", "")
 			}
 		}
-		// body = pipe read end
+		// body = pipe read end (the body variable: the local whose value is handed to http.NewRequest as the body)
 		okBody := false
+		bodyCells := map[*ssa.Alloc]bool{}
+		for _, nr := range callsIn(f, "net/http.NewRequestWithContext", "net/http.NewRequest") {
+			a := nr.Common().Args
+			if ad, isLd := derefLoad(a[len(a)-1]); isLd {
+				if al, isA := ad.(*ssa.Alloc); isA {
+					bodyCells[al] = true
+				}
+			}
+		}
 		for _, in := range instrs(f) {
 			if st, ok := in.(*ssa.Store); ok {
-				if al, isA := st.Addr.(*ssa.Alloc); isA && al.Comment == "body" {
+				if al, isA := st.Addr.(*ssa.Alloc); isA && bodyCells[al] {
 					if okk, _ := allOrigins(st.Val, oIsValue(resultOf(pipe, 0))); okk {
 						okBody = true
 					}
